@@ -47,6 +47,7 @@ struct Sched
   unsigned long long rng = 88172645463325252ULL;
   long steps = 0, max_steps = 2000000;
   bool yield_in_cs = false;
+  int spurious = 0; // percent chance per scheduling decision to wake one condition-variable sleeper without a notify
   int policy = 0; // 0 uniform random, 1 PCT-like priorities
   std::vector<int> prio;
   std::vector<long> change_at;
@@ -77,6 +78,8 @@ struct Sched
       logpath = getenv("WV_SCHED_LOG");
     if (getenv("WV_YIELD_IN_CS"))
       yield_in_cs = atoi(getenv("WV_YIELD_IN_CS")) != 0;
+    if (getenv("WV_SPURIOUS"))
+      spurious = atoi(getenv("WV_SPURIOUS"));
     if (getenv("WV_SCHED_POLICY"))
       policy = atoi(getenv("WV_SCHED_POLICY"));
     if (getenv("WV_SCHED_MAXSTEPS"))
@@ -115,6 +118,15 @@ struct Sched
   // choose the next thread to run among the enabled ones; G held
   int choose()
   {
+    if (spurious > 0 && (int)(next_rand() % 100) < spurious)
+    {
+      std::vector<int> sl;
+      for (size_t i = 0; i < thr.size(); ++i)
+        if (thr[i]->st == BLOCKED_CV)
+          sl.push_back((int)i);
+      if (!sl.empty())
+        thr[sl[next_rand() % sl.size()]]->st = RUNNABLE; // spurious wake-up (allowed by the C++ standard)
+    }
     std::vector<int> en;
     for (size_t i = 0; i < thr.size(); ++i)
       if (thr[i]->st == RUNNABLE)
@@ -289,6 +301,10 @@ public:
     for (size_t i = 0; i < s.thr.size(); ++i)
       if (s.thr[i]->st == vsched::BLOCKED_MUTEX && s.thr[i]->on == this)
         s.thr[i]->st = vsched::RUNNABLE;
+    bool y = s.yield_in_cs;
+    lk.unlock();
+    if (y)
+      vsched::yield_point(); // between releasing the mutex and whatever follows (e.g. a notify placed after the unlock)
   }
 };
 class vsched_condition_variable
